@@ -239,6 +239,33 @@ def hosts_dropout():
     return out
 
 
+def hosts_dropout_runtime():
+    out = []
+    for ratio, mask in itertools.product([0.5, 0.0, 0.25], [False, True]):
+        h = H(f"Dropout ratio={ratio} training=<graph input> mask_used={mask} seed=7")
+        h.inp("x", F, (2, 3))
+        h.inp("t", B, ())
+        h.c("r", np.array(ratio, dtype=f32))
+        if mask:
+            h.n("Dropout", ["x", "r", "t"], ["y", "m"], seed=7)
+            h.n("Cast", ["m"], "mf", to=F)
+            h.n("Add", ["y", "mf"], "z")
+        else:
+            h.n("Dropout", ["x", "r", "t"], ["y"], seed=7)
+            h.n("Neg", ["y"], "z")
+        h.out("z")
+        out.append(h.build())
+        h = H(f"Dropout ratio={ratio} training=Not(<graph input>) seed=7")
+        h.inp("x", F, (2, 3))
+        h.inp("t", B, ())
+        h.c("r", np.array(ratio, dtype=f32))
+        h.n("Not", ["t"], "nt")
+        h.n("Dropout", ["x", "r", "nt"], ["y"], seed=7)
+        h.out("y")
+        out.append(h.build())
+    return out
+
+
 def hosts_expand():
     out = []
     # no_op_expand and expand_before_binary_op
@@ -681,6 +708,7 @@ def hosts_scatter():
 
 FAMILIES = {
     "identity_ops": hosts_identity_ops, "casts": hosts_casts, "slices": hosts_slices, "dropout": hosts_dropout,
+    "dropout_runtime": hosts_dropout_runtime,
     "expand": hosts_expand, "reshape_family": hosts_reshape_family, "clip_relu_minmax": hosts_clip_relu_minmax,
     "hardswish": hosts_hardswish, "matmul_gemm": hosts_matmul_gemm, "conv": hosts_conv, "scatter": hosts_scatter,
 }
